@@ -205,16 +205,46 @@ func check(c Case) error {
 		return harness.Failf("C08/filter-calls", "filters were called %d times, %d elements of non-skipped filtered types exist", len(calls), len(expectShown))
 	}
 	if len(calls) <= 400 {
-		used := make([]bool, len(calls))
-	outer:
-		for _, w := range expectShown {
+		// perfect matching between expected elements and filter calls (field
+		// equality with the absent-timestamp tolerance is not symmetric, so a
+		// greedy assignment could strand an element): Kuhn's augmenting paths.
+		n := len(calls)
+		adj := make([][]int, n)
+		for i, w := range expectShown {
 			for j, cl := range calls {
-				if !used[j] && pbfgen.Diff(cl.copy, w) == "" {
-					used[j] = true
-					continue outer
+				if pbfgen.Diff(cl.copy, w) == "" {
+					adj[i] = append(adj[i], j)
 				}
 			}
-			return harness.Failf("C08/filter-view", "no filter call was shown element %v as the file encodes it (%s)", pbfgen.Name(w), pbfgen.Snap(w))
+		}
+		matchOfCall := make([]int, n)
+		for j := range matchOfCall {
+			matchOfCall[j] = -1
+		}
+		var try func(i int, seen []bool) bool
+		try = func(i int, seen []bool) bool {
+			for _, j := range adj[i] {
+				if seen[j] {
+					continue
+				}
+				seen[j] = true
+				if matchOfCall[j] < 0 || try(matchOfCall[j], seen) {
+					matchOfCall[j] = i
+					return true
+				}
+			}
+			return false
+		}
+		for i, w := range expectShown {
+			if !try(i, make([]bool, n)) {
+				var same []string
+				for _, cl := range calls {
+					if pbfgen.Name(cl.copy) == pbfgen.Name(w) {
+						same = append(same, fmt.Sprintf("[diff=%q] %s", pbfgen.Diff(cl.copy, w), cl.snap))
+					}
+				}
+				return harness.Failf("C08/filter-view", "no filter call was shown element %v as the file encodes it (%s); calls shown for that id/version: %v", pbfgen.Name(w), pbfgen.Snap(w), same)
+			}
 		}
 	}
 	return nil
